@@ -260,13 +260,23 @@ def oracle(case):
             except (TypeError, ValueError, IndexError):
                 pass
 
-            def close(v, target, wtarget=None):
+            # ... and never finer than the index format itself resolves: half a unit of the last digit it prints
+            # for a value, a whole unit for an increment (a %.6e index near 1e6 is written to the nearest 1)
+            from checks.c01 import token_unit
+
+            fmt0 = (opts.get("column_fmt") or {}).get(0, opts.get("fmt", "%.5f"))
+            try:
+                res = max(float(token_unit(fmt0 % x)) for x in (idx[0], idx[-1], idx[min(1, len(idx) - 1)]))
+            except (TypeError, ValueError, OverflowError):
+                res = 0.0
+
+            def close(v, target, wtarget=None, units=0.5):
                 try:
                     v = float(v)
                 except (TypeError, ValueError):
                     return False
                 wtarget = target if wtarget is None else wtarget
-                tol = 0.5e-5 + 1e-9 * max(abs(target), abs(wtarget)) + 1e-12
+                tol = 0.5e-5 + units * res + 1e-9 * max(abs(target), abs(wtarget)) + 1e-12
                 return min(target, wtarget) - tol <= v <= max(target, wtarget) + tol
 
             ctx = "write #%d, opts=%r, rounds=%r\n%s" % (n + 1, opts, rounds, t[:1200])
@@ -276,7 +286,7 @@ def oracle(case):
                 out.fail("STOP-untruthful|" + why, "output STOP=%r but the last index value is %r\n%s" % (w["STOP"].value, idx[-1], ctx))
             if "STEP" in w:
                 if len(idx) > 1 and idx[0] != idx[-1]:
-                    if not close(w["STEP"].value, idx[1] - idx[0], widx[1] - widx[0]):
+                    if not close(w["STEP"].value, idx[1] - idx[0], widx[1] - widx[0], units=1.0):
                         out.fail("STEP-untruthful|" + why, "output STEP=%r but the first increment is %r\n%s" % (w["STEP"].value, idx[1] - idx[0], ctx))
                 else:
                     if w["STEP"].value not in ("", 0) and not close(w["STEP"].value, 0.0):
